@@ -2,6 +2,36 @@ package checks
 
 import (
 	"encoding/json"
+	"os"
 )
 
 func jsonUnmarshal(b []byte, v interface{}) error { return json.Unmarshal(b, v) }
+
+// A case may be executed twice by the child runner (a case whose watchdog fired is run again, alone, in
+// a fresh child): every handler therefore starts from a state of its own.
+
+// freshDir empties a directory a handler is going to build an index in.
+func freshDir(dir string) {
+	_ = os.RemoveAll(dir)
+	_ = os.MkdirAll(dir, 0o755)
+}
+
+// privateCopy copies a prepared directory image (crash image, damaged index) to a scratch directory
+// next to it; the handler works on the copy, so that the image stays what the parent made it.
+func privateCopy(dir string) (string, func()) {
+	base := os.TempDir()
+	if d := os.Getenv("VERIF_SCRATCH"); d != "" {
+		base = d
+	} else if st, e := os.Stat("/dev/shm"); e == nil && st.IsDir() {
+		base = "/dev/shm"
+	}
+	tmp, err := os.MkdirTemp(base, "verif-img-")
+	if err != nil {
+		return dir, func() {}
+	}
+	if err := copyDir(dir, tmp); err != nil {
+		_ = os.RemoveAll(tmp)
+		return dir, func() {}
+	}
+	return tmp, func() { _ = os.RemoveAll(tmp) }
+}
